@@ -21,6 +21,20 @@ declarations:
   declarations:
   - decl: Accumulator()
   - decl: double add_all(double first_value, double second_value, double third_value, double fourth_value, double fifth_value)
+  - decl: void accumulate_value(int v)
+  - decl: void accumulate_value(long v)
+  - decl: void accumulate_value(float v)
+  - decl: void accumulate_value(double v)
+  - decl: void accumulate_value(const char *v)
+  - decl: void accumulate_value(int v, int w)
+  - decl: void accumulate_value(double v, double w)
+  - decl: void accumulate_value(int v, double w)
+- decl: void process_sample(int v)
+- decl: void process_sample(long v)
+- decl: void process_sample(float v)
+- decl: void process_sample(double v)
+- decl: void process_sample(int v, int w)
+- decl: void process_sample(double v, double w)
 """
 
 
@@ -55,7 +69,8 @@ def check(inp):
                     continue
                 # only the argument lists written by this monitor are known to carry break points after every comma
                 if sum(1 for m_ in ("first_value", "second_value", "third_value", "fourth_value", "fifth_value", "sixth_value", "nwork",
-                                    "nout") if m_ in line) < 2:
+                                    "nout") if m_ in line) < 2 and not ("," in line and (
+                                        line.count("accumulate_value_") >= 2 or line.count("process_sample_") >= 2)):
                     continue
                 body = line.strip()
                 # a line that offers no place to break it (one long token, a comment, a preprocessor line) may be longer
